@@ -1,7 +1,7 @@
 (* Props/C09.v — typed builders accept exactly the data that conforms to the schema.
    Property theorems only; proofs are in Proofs/SchemaBuild.v, SchemaRefute.v, SchemaTop.v. *)
 Require Import IP.Base.Bytes IP.DM.Value IP.Schema.Types IP.Schema.View IP.Schema.Conform IP.Schema.Sem
-  IP.Proofs.SchemaBuild IP.Proofs.SchemaRefute IP.Proofs.SchemaTop.
+  IP.Proofs.SchemaBuild IP.Proofs.SchemaShape IP.Proofs.SchemaRefute IP.Proofs.SchemaTop.
 
 (* every strategy, both levels, both engines, leniencies off: accepted <-> conforms, same value *)
 Theorem C09_accept_iff : forall e t d v, (e = Bind \/ e = Gen) -> wf t = true ->
@@ -26,6 +26,12 @@ Theorem C09_reject_is_error : forall e t d, (e = Bind \/ e = Gen) -> wf t = true
   (conforms_t t d = None -> exists c, tbuild e qoff t d = BErr c).
 Proof. exact reject_top. Qed.
 Print Assumptions C09_reject_is_error.
+
+(* never a node outside the type: what a builder returns lies in the value space of the type *)
+Theorem C09_built_in_type : forall e q lvl t d v, strict e q -> wf t = true ->
+  build e q lvl t d = BOk v -> has_shape t v = true.
+Proof. exact built_in_type. Qed.
+Print Assumptions C09_built_in_type.
 
 (* the hypotheses are satisfiable *)
 Theorem C09_example : wf tBig = true /\ strict Bind qoff /\ strict Gen qoff.
